@@ -356,6 +356,19 @@ func pathFor(e *simEnv, fm form, flow int, w window, destAt int, r *rand.Rand, n
 	}
 	m.destDelay = time.Duration(1+r.Intn(60)) * time.Millisecond
 	m.destBuild = fm.dest
+	if noise && r.Intn(3) == 0 {
+		// other hosts' pings pass the capture filter (all ICMP does) right after every probe, more of them than the
+		// listening window has poll intervals: they are skipped at no cost to the window, the reply behind them counts
+		k := 2*int(e.spec.Timeout/e.spec.EffectivePoll()) + 5
+		if k > 80 {
+			k = 80
+		}
+		m.extra = func(e *simEnv, p *refmatch.Probe) {
+			for i := 0; i < k; i++ {
+				e.inject(gen.EchoReply(uniqueAddr(v.V6, 7000+i), e.local, 0x7777, uint16(i), []byte{1, 2, 3}, nil), "unrelated-ping", nil, oddUS(time.Duration(100+10*i)*time.Microsecond))
+			}
+		}
+	}
 	if noise && !v.Serial && last > w.first {
 		// one send returns late (the sender is descheduled inside the write) while that hop answers at once:
 		// the reply is read before the sender continues
